@@ -69,14 +69,124 @@ def _terminal(stmts):
                                                   ast.Continue, ast.Break))
 
 
+def _simple_chain(e):
+    return isinstance(e, ast.Attribute) and (
+        isinstance(e.value, ast.Name) or _simple_chain(e.value))
+
+
+def _reads_before_any_call(stmt, name):
+    """`name` is read exactly once in the simple statement `stmt`, and no
+    call completes before that read (evaluation order)."""
+    events = []
+
+    def visit(n):
+        if isinstance(n, (ast.Lambda, ast.FunctionDef, ast.ClassDef,
+                          ast.GeneratorExp, ast.ListComp, ast.SetComp,
+                          ast.DictComp)):
+            events.append('opaque')
+            return
+        if isinstance(n, ast.Assign):
+            visit(n.value)
+            for t in n.targets:
+                visit(t)
+            return
+        if isinstance(n, ast.AugAssign):
+            visit(n.target)
+            visit(n.value)
+            return
+        if isinstance(n, ast.Name):
+            if n.id == name:
+                events.append('read' if isinstance(n.ctx, ast.Load)
+                              else 'opaque')
+            return
+        for c in ast.iter_child_nodes(n):
+            visit(c)
+        if isinstance(n, (ast.Call, ast.Await, ast.Yield, ast.YieldFrom)):
+            events.append('call')
+
+    visit(stmt)
+    if events.count('read') != 1 or 'opaque' in events:
+        return False
+    return 'call' not in events[:events.index('read')]
+
+
+class _Subst(ast.NodeTransformer):
+    def __init__(self, name, value):
+        self.name, self.value = name, value
+
+    def visit_Name(self, node):
+        if node.id == self.name and isinstance(node.ctx, ast.Load):
+            return ast.copy_location(self.value, node)
+        return node
+
+
+def _name_counts(fnode):
+    loads, stores = {}, {}
+    for n in ast.walk(fnode):
+        if isinstance(n, ast.Name):
+            d = loads if isinstance(n.ctx, ast.Load) else stores
+            d[n.id] = d.get(n.id, 0) + 1
+        elif isinstance(n, (ast.Global, ast.Nonlocal)):
+            for x in n.names:
+                stores[x] = stores.get(x, 0) + 2
+        elif isinstance(n, ast.arg):
+            stores[n.arg] = stores.get(n.arg, 0) + 2
+    return loads, stores
+
+
+def _inline_single_use_temps(fnode):
+    """`t = a.b.c` immediately followed by a simple statement that reads `t`
+    once, before any call completes, `t` bound and read nowhere else in the
+    function  ->  the statement with `a.b.c` in place of `t`."""
+    loads, stores = _name_counts(fnode)
+    SIMPLE = (ast.Expr, ast.Assign, ast.AugAssign, ast.Return, ast.Raise,
+              ast.Assert, ast.Delete)
+
+    def block(stmts):
+        out = []
+        i = 0
+        while i < len(stmts):
+            s = stmts[i]
+            nxt = stmts[i + 1] if i + 1 < len(stmts) else None
+            if isinstance(s, ast.Assign) and len(s.targets) == 1 and \
+                    isinstance(s.targets[0], ast.Name) and \
+                    _simple_chain(s.value) and isinstance(nxt, SIMPLE):
+                t = s.targets[0].id
+                if loads.get(t, 0) == 1 and stores.get(t, 0) == 1 and \
+                        _reads_before_any_call(nxt, t):
+                    out.append(_Subst(t, s.value).visit(nxt))
+                    i += 2
+                    continue
+            out.append(s)
+            i += 1
+        return out
+
+    def walk(n):
+        for f in ('body', 'orelse', 'finalbody'):
+            b = getattr(n, f, None)
+            if isinstance(b, list) and b and isinstance(b[0], ast.stmt):
+                setattr(n, f, block(b))
+        for c in ast.iter_child_nodes(n):
+            if not isinstance(c, (ast.FunctionDef, ast.AsyncFunctionDef,
+                                  ast.ClassDef, ast.Lambda)):
+                walk(c)
+
+    walk(fnode)
+
+
 def _normalise_blocks(node):
     """Statement-level part of the spelling-independent form:
       * `x = E` immediately followed by `return x`   ->  `return E`
       * `if c: ...; return` / `else: REST`           ->  `if c: ...; return`
         followed by REST (no else after a block that cannot fall through)
-    Both are applied bottom-up to every block of the module."""
+      * `t = a.b.c` immediately followed by the only statement that reads
+        `t` (see _inline_single_use_temps)           ->  that statement with
+        `a.b.c` in place of `t`
+    All are applied bottom-up to every block of the module."""
     for child in ast.iter_child_nodes(node):
         _normalise_blocks(child)
+    if isinstance(node, (ast.FunctionDef, ast.AsyncFunctionDef)):
+        _inline_single_use_temps(node)
     fields = [f for f in ('body', 'orelse', 'finalbody')
               if isinstance(getattr(node, f, None), list) and
               getattr(node, f) and isinstance(getattr(node, f)[0], ast.stmt)]
